@@ -109,7 +109,10 @@ Definition new_context (i : binfo) (kids : list node) (childContexts : list ctx)
   let neg := isort ctx_z neg in
   let pos := isort ctx_z pos in
   (* 63-68 *)
-  let z := match bz i with None => 0%Z | Some k => k end in
+  let z := match bz i with
+           | None => 0%Z
+           | Some k => if bpos i then k else 0%Z       (* position static: z-index does not apply *)
+           end in
   Ctx i kids z neg zero pos blocks floats bac.
 
 (* the accumulators of one NewStackingContextFromBox activation; `a_ctxs` is
@@ -223,11 +226,12 @@ Inductive event :=
 Definition rl := res (list event).
 
 (* sequential composition of drawing calls *)
-Fixpoint seqM {A} (f : A -> rl) (l : list A) : rl :=
-  match l with
-  | [] => Ok []
-  | a :: r => let* x := f a in let* y := seqM f r in Ok (x ++ y)
-  end.
+Definition seqM {A} (f : A -> rl) : list A -> rl :=
+  fix go (l : list A) : rl :=
+    match l with
+    | [] => Ok []
+    | a :: r => let* x := f a in let* y := go r in Ok (x ++ y)
+    end.
 
 Definition app2 (a b : rl) : rl := let* x := a in let* y := b in Ok (x ++ y).
 Infix "+++" := app2 (at level 60, right associativity).
